@@ -138,7 +138,7 @@ static void split_before_chunk(Chunk *pc)
    LOG_FUNC_ENTRY();
    LOG_FMT(LSPLIT, "%s(%d): Text() '%s'\n", __func__, __LINE__, pc->Text());
 
-   Chunk *prev = pc->GetPrev();
+   Chunk *prev = pc->GetPrevNvb();   // as newline_add_before() does: a virtual brace does not hide the newline in front of it
 
    if (  !pc->IsNewline()
       && !prev->IsNewline())
